@@ -90,6 +90,10 @@ func (iq *IQ) UnmarshalXML(d *xml.Decoder, start xml.StartElement) error {
 
 	// Extract IQ attributes
 	for _, attr := range start.Attr {
+		if attr.Name.Space != "" && attr.Name.Local != "lang" {
+			// A namespaced attribute (other than xml:lang) is not one of the stanza's own attributes
+			continue
+		}
 		if attr.Name.Local == "id" {
 			iq.Id = attr.Value
 		}
